@@ -1386,6 +1386,14 @@ class Interp:
             raise Unsupported('attribute %s of %s not modelled' % (attr, base.cls))
         if isinstance(base, SArr):
             return self.arr_attr(base, attr)
+        if isinstance(base, SWhere) and attr == 'size':
+            # number of selected indices: a fresh count that is positive exactly when some index is selected
+            cnt = self.ctx.fresh('wsize', IntS)
+            anyb = npm.np_any(self.ctx, base.mask)
+            self.ctx.assume(cnt >= 0)
+            self.ctx.assume(z3.And(z3.Implies(b2z(anyb), cnt > 0), z3.Implies(cnt > 0, b2z(anyb))))
+            self.ctx.assume(cnt <= tz(base.mask.n))
+            return cnt
         if isinstance(base, SCompact) and attr in ('real', 'imag'):
             v = base.val
             if attr == 'real':
@@ -1655,6 +1663,20 @@ class Interp:
             raise Unsupported('int index into %d-d array' % a.ndim)
         if isinstance(idx, SWhere):
             idx = idx.mask
+        if isinstance(idx, SCompact) and idx.dtype == 'int' and a.ndim == 1:
+            # fancy read through a compacted index array (e.g. column[row[col == icol]]): a compaction over the same mask
+            n = a.n
+            k = ctx.fresh('ci', IntS)
+            ctx.add_iterm(k)
+            iv, mg = idx.val, idx.mget
+            ok = z3.Implies(z3.And(k >= 0, k < tz(idx.mask.n), b2z(mg(k))), z3.And(tz(iv(k)) >= -tz(n), tz(iv(k)) < tz(n)))
+            ctx.oblige('bounds', 'compacted fancy index within bounds', ok)
+            g = self.frozen_getter(a)
+
+            def cel(i):
+                j = tz(iv(i))
+                return g(z3.If(j < 0, j + tz(n), j))
+            return SCompact(idx.mask, cel, a.dtype, idx.mget)
         if isinstance(idx, SArr):
             if idx.dtype == 'bool':
                 if a.ndim != 1 or idx.ndim != 1:
@@ -1770,6 +1792,29 @@ class Interp:
                 npm.arr_write(ctx, a, lambda i: scalar_cmp('==', i, j), lambda i: v)
                 return
             target = self.arr_getitem(a, idx)
+        elif isinstance(idx, SCompact) and idx.dtype == 'int' and a.ndim == 1 and not isinstance(v, (SArr, SCompact)):
+            # a[rows[mask]] = constant (duplicates are harmless for a constant): position r is written iff some selected k
+            # has rows[k] == r.  The existential is a Skolem witness function w with: selected k => w picks a selected
+            # index with the same target (universal fact), and `written(r)` := w(r) is selected and targets r.
+            m = idx.mask.n
+            iv, mg = idx.val, idx.mget
+            w = ctx.fresh_fun('wit', IntS, IntS)
+            nn = a.n
+
+            def tgt(k):
+                j = tz(iv(k))
+                return z3.If(j < 0, j + tz(nn), j)
+
+            def written(r):
+                ctx.add_iterm(w(tz(r)))
+                return z3.And(w(tz(r)) >= 0, w(tz(r)) < tz(m), b2z(mg(w(tz(r)))), tgt(w(tz(r))) == tz(r))
+            ctx.add_universal(lambda t: z3.Implies(z3.And(t >= 0, t < tz(m), b2z(mg(t))), written(tgt(t))))
+            kk = ctx.fresh('ck', IntS)
+            ctx.add_iterm(kk)
+            ctx.oblige('bounds', 'compacted fancy store index within bounds',
+                       z3.Implies(z3.And(kk >= 0, kk < tz(m), b2z(mg(kk))), z3.And(tz(iv(kk)) >= -tz(nn), tz(iv(kk)) < tz(nn))))
+            npm.arr_write(ctx, a, lambda r: written(r), lambda r: v)
+            return
         elif isinstance(idx, SWhere) and a.ndim == 1:
             return self.arr_setitem(a, idx.mask, self.where_rhs(idx, v))
         elif isinstance(idx, SArr) and idx.dtype == 'bool' and a.ndim == 1:
@@ -2478,4 +2523,4 @@ BUILTINS = {'locals', 'len', 'range', 'isinstance', 'abs', 'min', 'max', 'float'
             'getattr', 'hasattr', 'type', 'repr', 'id', 'callable', 'reversed', 'slice', 'iter',
             'next', 'frozenset', 'complex', 'round', 'divmod', 'issubclass', 'setattr', 'map',
             'old', 'implies', 'iff', 'ite', 'Sum', 'is_none', 'is_inf', 'is_nan', 'same_object',
-            'arr_eq', 'ghost', 'fp_finite', 'is_view', 'is_scalar', 'is_vector', 'approx', 'same_fp', 'same_fp_bool', 'exceeds', 'below', 'pow', 'floor', 'approx_h', 'atan2', 'floor_', 'le', 'log_', 'exp_', 'tanh_', 'namedtuple', 'is_integral', 'shares_memory'}
+            'arr_eq', 'ghost', 'fp_finite', 'is_view', 'is_scalar', 'is_vector', 'approx', 'same_fp', 'same_fp_bool', 'exceeds', 'below', 'pow', 'floor', 'approx_h', 'atan2', 'floor_', 'le', 'log_', 'exp_', 'tanh_', 'namedtuple', 'is_integral', 'shares_memory', 'in_pairs'}
